@@ -5,11 +5,19 @@ import TLVerif.Props.C03
 Statements about the models `readTL1`/`writeTL1` (`Codec/TL1.lean`) and `writeTL2`/`readTL2` (`Codec/TL2.lean`), tied to the
 generated Go code by `checks/C04.py`.
 
-Full-strength statement (`ConversionPreserves`): every value decoded from valid TL1 bytes survives TL1 → TL2 → TL1.
-It is **false** for the generated code (`tl1_tl2_tl1_fails_at`): a non-optional `double`/`float` field holding `-0.0` is
-"empty" for the TL2 writer (`x != 0` is a float comparison), is not written, and reads back as `+0.0`.
-`tl1_tl2_tl1_partial` proves preservation under the guard `Good`, whose float condition is exactly "no `-0.0` in a
-position where the writer tests emptiness" (the check evaluates that guard, as `noNegZero`, on every failing case).
+`tl1_tl2_tl1`: every value decoded from TL1 bytes that satisfies `Good` survives TL1 → TL2 → TL1 as *the same value*.
+`Good` no longer says anything about floats beyond their width: the generated TL2 writer tests floats with
+`(x != 0 || 1/x < 0)` (`TypeRWPrimitive.nonZeroCondition`), so a float is left out iff its bit pattern is zero and `-0.0` is
+written out (`float_empty_iff_zero_pattern`, `prim_negzero_preserved`, and the chain on the former witness bytes of lead L2,
+`tl1_tl2_tl1_negzero_at`).  Before that change `-0.0` in a non-optional field came back as `+0.0`; the check's fixed
+witness lines now must pass.
+
+Guards that remain in `Good` and are genuinely needed (each is where the generated code, or Go's `int`, does not allow
+more — see `Props/C03.lean`): the value has the shape of the type and numbers fit their width (automatic for decoded
+values, not proved here); no `bit` reached through an alias / `Maybe` / array element and no optional field of an empty
+non-`true` struct type (TL2-only constructs: they cannot occur in a TL1-origin schema); encodings shorter than 2^63 bytes.
+That `readTL1` only produces `Good` values is explored by the tie on every run, not proved; hence `ConversionPreserves`
+(the statement without the hypothesis) stays a `def`: no counter-example is known any more.
 -/
 namespace TLVerif.Props.C04
 open TLVerif.Prim TLVerif.Codec
@@ -58,22 +66,26 @@ theorem prim_tl1_tl2_tl1 (k : PrimK) (zie c : Bool) (v : Val) (r : Option Bytes)
   obtain ⟨h1, h2⟩ := prim_roundtrip k zie c v r hg he hlen
   exact ⟨fun b hb rest => (h1 b hb).2 rest, fun hn => (h2 hn).symm⟩
 
-/-- `-0.0` is the value that is lost: the TL2 writer leaves it out, the reader's reset value is `+0.0`, and the TL1
-encodings of the two differ (32- and 64-bit floats). -/
-theorem prim_negzero_lost :
-    encPrim .f32 true (.nat 0x80000000) = .ok none ∧ writePrim .f32 (.nat 0x80000000) ≠ writePrim .f32 (zeroPrim .f32) ∧
-    encPrim .f64 true (.nat 0x8000000000000000) = .ok none ∧
-      writePrim .f64 (.nat 0x8000000000000000) ≠ writePrim .f64 (zeroPrim .f64) := by
-  refine ⟨rfl, ?_, rfl, ?_⟩
-  · intro h
-    simp [writePrim, zeroPrim, u32le, byteOf] at h
-  · intro h
-    simp [writePrim, zeroPrim, u64le, u32le, byteOf] at h
+/-- A float is "empty" for the TL2 writer exactly when its bit pattern is zero — like an integer. -/
+theorem float_empty_iff_zero_pattern (n : Nat) :
+    primEmpty .f32 (.nat n) = (n == 0) ∧ primEmpty .f64 (.nat n) = (n == 0) := ⟨rfl, rfl⟩
 
-/-- **TL1 → TL2 → TL1 under the guard.** A value decoded from TL1 bytes that satisfies `Good` (in particular: no float
-`-0.0` in an empty-test position) is written in TL2, read back as *the same value* (so its JSON and every TL1 encoding of
-it are unchanged) and nothing is left over. -/
-theorem tl1_tl2_tl1_partial (cfg : Cfg) (d : Desc) (fuel ty : Nat) (bare c : Bool) (params : List Nat)
+/-- **`-0.0` is preserved**: in an empty-test position the writer emits its four / eight bytes, the reader returns the
+same pattern, so its TL1 encoding is unchanged (32- and 64-bit floats); only `+0.0` is left out. -/
+theorem prim_negzero_preserved (c : Bool) (rest : Bytes) :
+    encPrim .f32 true (.nat 0x80000000) = .ok (some [0, 0, 0, 0x80]) ∧
+    readPrim2 .f32 c ([0, 0, 0, 0x80] ++ rest) = .ok (.nat 0x80000000, rest) ∧
+    encPrim .f64 true (.nat 0x8000000000000000) = .ok (some [0, 0, 0, 0, 0, 0, 0, 0x80]) ∧
+    readPrim2 .f64 c ([0, 0, 0, 0, 0, 0, 0, 0x80] ++ rest) = .ok (.nat 0x8000000000000000, rest) ∧
+    encPrim .f32 true (.nat 0) = .ok none ∧ encPrim .f64 true (.nat 0) = .ok none := by
+  have h32 := prim_roundtrip .f32 true c (.nat 0x80000000) (some [0, 0, 0, 0x80]) rfl rfl (by decide)
+  have h64 := prim_roundtrip .f64 true c (.nat 0x8000000000000000) (some [0, 0, 0, 0, 0, 0, 0, 0x80]) rfl rfl (by decide)
+  exact ⟨rfl, ((h32.1 _ rfl).2 rest), rfl, ((h64.1 _ rfl).2 rest), rfl, rfl⟩
+
+/-- **TL1 → TL2 → TL1.** A value decoded from TL1 bytes that satisfies `Good` (no condition on floats other than their
+width: `-0.0`, NaNs with payload, everything) is written in TL2, read back as *the same value* (so its JSON and every TL1
+encoding of it are unchanged) and nothing is left over.  Remaining guards: see the header. -/
+theorem tl1_tl2_tl1 (cfg : Cfg) (d : Desc) (fuel ty : Nat) (bare c : Bool) (params : List Nat)
     (bs rest w2 : Bytes) (v : Val)
     (_hr : readTL1 cfg d fuel ty bare params bs = .ok (v, rest))
     (hg : Good d fuel ty false v) (hw : writeTL2 d fuel ty false v = .ok w2) :
@@ -86,7 +98,15 @@ theorem tl1_tl2_tl1_partial (cfg : Cfg) (d : Desc) (fuel ty : Nat) (bare c : Boo
   cases hv'
   rfl
 
-/-! ### the counter-example -/
+/-- the statement without the hypothesis `Good`: TL1 bytes → value → TL2 bytes → value → the same TL1 bytes.
+Not proved (it needs "`readTL1` only yields `Good` values", which the tie explores); no counter-example is known since `-0.0`
+is written out. -/
+def ConversionPreserves : Prop :=
+  ∀ (d : Desc) (fuel ty : Nat) (bs w2 w1 : Bytes) (v v' : Val),
+    readTL1 {} d fuel ty true [] bs = .ok (v, []) → writeTL2 d fuel ty false v = .ok w2 →
+    readTL2 d fuel ty false w2 = .ok (v', []) → writeTL1 d fuel ty true [] v' = .ok w1 → w1 = bs
+
+/-! ### the former counter-example now passes -/
 
 /-- `s key:double = S;` (instance 0 = `double`, instance 1 = the struct, tag 1) -/
 def dblDesc : Desc :=
@@ -94,29 +114,62 @@ def dblDesc : Desc :=
       .struct { tag := 1, nparams := 0, hasTL2 := true,
                 fields := [{ name := "key", ty := 0, bare := true, mask := none, tl2bit := none, isBit := false, natArgs := [] }] }] }
 
-/-- the full-strength statement: TL1 bytes → value → TL2 bytes → value → the same TL1 bytes -/
-def ConversionPreserves : Prop :=
-  ∀ (d : Desc) (fuel ty : Nat) (bs w2 w1 : Bytes) (v v' : Val),
-    readTL1 {} d fuel ty true [] bs = .ok (v, []) → writeTL2 d fuel ty false v = .ok w2 →
-    readTL2 d fuel ty false w2 = .ok (v', []) → writeTL1 d fuel ty true [] v' = .ok w1 → w1 = bs
+/-- `key = -0.0` is `Good` (it used to be the excluded value) -/
+theorem negzero_good : Good dblDesc 3 1 false (.struct [some (.nat 0x8000000000000000)]) := by
+  refine ⟨fun r hr => ?_, ?_⟩
+  · have : encTL2 dblDesc 3 1 false (.struct [some (.nat 0x8000000000000000)]) = .ok (some [9, 2, 0, 0, 0, 0, 0, 0, 0, 0x80]) := rfl
+    rw [this] at hr; cases hr; decide
+  · refine ⟨by decide, ⟨by decide, by decide, ?_⟩, trivial⟩
+    refine ⟨fun r hr => ?_, ?_⟩
+    · have : encTL2 dblDesc 2 0 true (.nat 0x8000000000000000) = .ok (some [0, 0, 0, 0, 0, 0, 0, 0x80]) := rfl
+      rw [this] at hr; cases hr; decide
+    · show goodPrim PrimK.f64 true (Val.nat 0x8000000000000000) = true
+      rfl
 
-/-- Witness (tied by the fixed line of `checks/C04.py`): the TL1 bytes of `-0.0` come back as the bytes of `+0.0`. -/
-theorem tl1_tl2_tl1_fails_at :
+/-- The chain on `-0.0` in a non-optional `double` field: the TL2 bytes carry the eight bytes of `-0.0`, the value read
+back is the same, the TL1 bytes are reproduced. -/
+theorem tl1_tl2_tl1_negzero_at :
     readTL1 {} dblDesc 3 1 true [] [0, 0, 0, 0, 0, 0, 0, 0x80] = .ok (.struct [some (.nat 0x8000000000000000)], []) ∧
-    writeTL2 dblDesc 3 1 false (.struct [some (.nat 0x8000000000000000)]) = .ok [0] ∧
-    readTL2 dblDesc 3 1 false [0] = .ok (.struct [some (.nat 0)], []) ∧
-    writeTL1 dblDesc 3 1 true [] (.struct [some (.nat 0)]) = .ok [0, 0, 0, 0, 0, 0, 0, 0] := by
+    writeTL2 dblDesc 3 1 false (.struct [some (.nat 0x8000000000000000)]) = .ok [9, 2, 0, 0, 0, 0, 0, 0, 0, 0x80] ∧
+    readTL2 dblDesc 3 1 false [9, 2, 0, 0, 0, 0, 0, 0, 0, 0x80] = .ok (.struct [some (.nat 0x8000000000000000)], []) ∧
+    writeTL1 dblDesc 3 1 true [] (.struct [some (.nat 0x8000000000000000)]) = .ok [0, 0, 0, 0, 0, 0, 0, 0x80] := by
   refine ⟨rfl, rfl, ?_, rfl⟩
-  simp [readTL2, readStructObj, dblDesc, Desc.get?, sliceBody, parseSize, tl2ParseSize, liftP, zeroFieldsWith, zeroVal,
-    fieldOptional, zeroPrim, mediumMarker_eq]
+  exact (tl1_tl2_tl1 {} dblDesc 3 1 true false [] [0, 0, 0, 0, 0, 0, 0, 0x80] [] [9, 2, 0, 0, 0, 0, 0, 0, 0, 0x80]
+    (.struct [some (.nat 0x8000000000000000)]) rfl negzero_good rfl).1
 
-theorem conversion_fails : ¬ ConversionPreserves := by
-  intro h
-  obtain ⟨h1, h2, h3, h4⟩ := tl1_tl2_tl1_fails_at
-  have := h dblDesc 3 1 _ _ _ _ _ h1 h2 h3 h4
-  exact absurd this (by decide)
+/-! the former witness line of lead L2 (`codec.x2 cases … cases.testDictAny 1 db4d2b25 01000000 0000000000000080 07000000`):
+`cases.testDictAny dict:vector<dictionaryAnyField<double,int>>` with the single entry `-0.0 ↦ 7`.
+Instances: 0 `double`, 1 `int`, 2 `dictionaryAnyField<double,int>`, 3 the array, 4 `vector<…>`, 5 `cases.testDictAny`. -/
+def dictAnyDesc : Desc :=
+  { insts := #[.prim .f64, .prim .i32,
+      .struct { tag := 0xe466c347, nparams := 0, hasTL2 := true,
+                fields := [{ name := "key", ty := 0, bare := true, mask := none, tl2bit := none, isBit := false, natArgs := [] },
+                           { name := "value", ty := 1, bare := true, mask := none, tl2bit := none, isBit := false, natArgs := [] }] },
+      .array { isTuple := false, dynamic := false, count := 0, nparams := 0, hasTL2 := true,
+               elem := { name := "", ty := 2, bare := true, mask := none, tl2bit := none, isBit := false, natArgs := [] } },
+      .struct { tag := 0x1cb5c415, nparams := 0, hasTL2 := true, isAlias := true, isTypedef := true, isUnwrap := true,
+                fields := [{ name := "", ty := 3, bare := true, mask := none, tl2bit := none, isBit := false, natArgs := [] }] },
+      .struct { tag := 0x252b4ddb, nparams := 0, hasTL2 := true,
+                fields := [{ name := "dict", ty := 4, bare := true, mask := none, tl2bit := none, isBit := false, natArgs := [] }] }] }
 
-/-- the guard is satisfiable by a non-trivial value: `key = 1.0` -/
-example : goodPrim .f64 true (.nat 0x3FF0000000000000) = true := rfl
+def dictAnyBytes : Bytes :=
+  [0xdb, 0x4d, 0x2b, 0x25, 1, 0, 0, 0, 0, 0, 0, 0, 0, 0, 0, 0x80, 7, 0, 0, 0]
+
+def dictAnyVal : Val := .struct [some (.struct [some (.arr [.struct [some (.nat 0x8000000000000000), some (.nat 7)]])])]
+
+def dictAnyTL2 : Bytes := [0x11, 2, 0x0f, 1, 0x0d, 6, 0, 0, 0, 0, 0, 0, 0, 0x80, 7, 0, 0, 0]
+
+/-- on the old witness bytes: decode (boxed), convert, and the TL2 bytes contain `0000000000000080`; re-encoding the
+value gives back the witness bytes -/
+example :
+    readTL1 {} dictAnyDesc 8 5 false [] dictAnyBytes = .ok (dictAnyVal, []) ∧
+    writeTL2 dictAnyDesc 8 5 false dictAnyVal = .ok dictAnyTL2 ∧
+    writeTL1 dictAnyDesc 8 5 false [] dictAnyVal = .ok dictAnyBytes := ⟨rfl, rfl, rfl⟩
+
+/-- … and the TL2 bytes read back as the same value -/
+example : readTL2 dictAnyDesc 8 5 false dictAnyTL2 = .ok (dictAnyVal, []) := by
+  simp [readTL2, readStructObj, readFields2With, readField, nextBlock, readHead, readByte, readElems2With, readPrim2, readU32,
+    readU64, dictAnyDesc, dictAnyTL2, dictAnyVal, Desc.get?, sliceBody, parseSize, tl2ParseSize, liftP, isTrueTy, isBitTy, testBit,
+    structUI, Except.map, mediumMarker_eq]
 
 end TLVerif.Props.C04
